@@ -65,9 +65,11 @@ func (p *Pipe) sharedBody() (lets, expr string) {
 	case 7:
 		return "let r=numbers(3).multiUse({p:l->l.sum()+s.size(), q:l->l.size()+s.reverse().first()+s[0], t:l->l.first()+s.eval().last()}); ", "[r.p,r.q,r.t]"
 	case 8:
-		return "", "numbers(24).map(i->cost(" + strconv.Itoa(sharedCostID) + ",i)+(if i<14 then i else s.size()*1000+s[i%2]+i))"
+		// (only operations that cannot fail, whatever s contains: an element that fails behind the point where
+		// an early-stopping consumer decides may or may not surface in parallel mode - not claimed by C06)
+		return "", "numbers(24).map(i->cost(" + strconv.Itoa(sharedCostID) + ",i)+(if i<14 then i else s.size()*1000+s.reverse().size()*10+s.eval().top(1).size()+i))"
 	case 9:
-		return "", "numbers(5).map(i->s.size()+i).merge(numbers(5).map(i->s[1]+s.reverse().last()+i), (p,q)->p<q)"
+		return "", "numbers(5).map(i->s.size()+i).merge(numbers(5).map(i->s.eval().size()*3+s.reverse().top(1).size()+i), (p,q)->p<q)"
 	// the same with the fault caught inside the closures: a shared list that fails to materialise
 	// has to fail for every goroutine that asks, also for one that waited for another's attempt
 	case 10:
